@@ -11,7 +11,7 @@ from __future__ import annotations
 import json
 import re
 
-from .. import codec, gen, tlc
+from .. import codec, gen, paramwire, tlc
 from ..common import rmtree, scratch
 
 
@@ -309,6 +309,8 @@ def run(rep) -> None:
         spellings(rep, d)
         shared_positions(rep)
         allof_required(rep, d)
+        # ParamWire.tla W3: an omitted optional parameter is not transmitted in any location; None never reaches the query string
+        paramwire.judge(rep, "C10", d)
         rep.sample({"descriptor": descs[3]["d"], "states": ["absent", "null", "present"]})
     finally:
         rmtree(d)
